@@ -3,7 +3,7 @@
    subtree that sat below p, after the subtree's root was put below q under the name n') *)
 From Coq Require Import List NArith Bool Permutation.
 Import ListNotations.
-Require Import V.C38.Spec V.C38.Rows V.C38.Paths V.C39.Proofs.
+Require Import V.C38.Spec V.C38.Clauses V.C38.Rows V.C38.Paths V.C39.Proofs V.C39.Tie.
 Open Scope N_scope.
 
 (* every object survives with its identity and all attributes (multiset), every connection survives
@@ -59,6 +59,14 @@ Theorem C39_spec_move_without_descendants :
          /\ (n' = oname k \/ In (oname k) (names (a ++ b)) \/ In (oname k) (names (firstn i ks'))).
 Proof. exact spec_move_alone. Qed.
 
+(* the executable clauses (codes 11-21) that Check.v evaluates on the IMPLEMENTATION's before/after for a
+   rename / move step hold on the specification's own output, for every graph that passes the
+   executable well-formedness test (code 2) *)
+Theorem C39_spec_satisfies_executable_clauses :
+  forall g o g', wf_b g = true -> is_relocate o = true -> spec_apply g o = Some g' ->
+    prop_codes g o (rows g') (g_edges g') = [].
+Proof. exact relocate_spec_satisfies_clauses. Qed.
+
 (* non-vacuity: moving container 3 ("a.c", with child "d") below 5 ("b"), with and without descendants *)
 Definition ex_graph : graph :=
   mkG [Obj 1 [97] [] [Obj 2 [98] [] []; Obj 3 [99] [(2, [114])] [Obj 4 [100] [] []]]; Obj 5 [98] [] []]
@@ -79,3 +87,4 @@ Print Assumptions C39_spec_move_only_subtree_ids_change.
 Print Assumptions C39_spec_rename_subtree_follows.
 Print Assumptions C39_spec_move_subtree_follows.
 Print Assumptions C39_spec_move_without_descendants.
+Print Assumptions C39_spec_satisfies_executable_clauses.
